@@ -10,7 +10,7 @@ RULES = {"C05.a", "C05.b", "C05.c", "C05.d", "C04.e", "C01.c"}
 
 
 def check(ctx):
-    kernel.analyze(ctx, RULES | {"C04.c"})
+    kernel.analyze(ctx, RULES | {"C04.c", "C12.d"})
     # the lookahead length is measured on the text behind the candidate: the kernel splits the haystack it is given at the
     # candidate's end (C04.c above), which is that text only if the callers hand it the rest of the input from their offset
     from . import cursor
